@@ -2,18 +2,18 @@
 //@ enforce: cache_get
 //@ pre-unwind: cache_get.0:3 memcmp.0:33
 //@ props: C15 C18 C08
-//@ bounded: cache list of 0..2 entries (use counts 1..INT_MAX-1, arbitrary hashes and contexts)
-//@ expect: postcondition>=8 canary=4
+//@ bounded: cache list of 0..2 entries (use counts 1..INT_MAX-1, arbitrary distinct hashes, distinct contexts)
+//@ expect: postcondition>=5 canary=4
 #include "_unit_cs.h"
 void harness(void)
 {
     xv_ghost_havoc();
     xv_lk_ghost_havoc();
-    xv_cs_ghost_havoc();
-    const uint8_t *hash;
-    struct cache_entry *e = cache_get(&cache, hash);   /* the one cache of ctx_store.c (a pointer merely assumed equal to &cache is not dereferenceable for CBMC) */
-    if (e == NULL && xv_g_n == 0) XV_CANARY("miss, empty cache");
-    if (e == NULL && xv_g_n == 2) XV_CANARY("miss, two entries");
-    if (e != NULL && xv_g_n == 1) XV_CANARY("hit, one entry");
-    if (e != NULL && xv_g_n == 2 && e != cache.entries.lh_first) XV_CANARY("hit second of two");
+    xv_cs_enter();                      /* lock held; the cache is ANY list of 0..2 entries satisfying the invariant */
+    uint8_t hash[32];
+    struct cache_entry *e = cache_get(&cache, hash);
+    if (e == NULL && xv_acq.n == 0) XV_CANARY("miss, empty cache");
+    if (e == NULL && xv_acq.n == 2) XV_CANARY("miss, two entries");
+    if (e != NULL && xv_acq.n == 1) XV_CANARY("hit, one entry");
+    if (e != NULL && xv_acq.n == 2 && e == xv_acq.e[1]) XV_CANARY("hit second of two");
 }
